@@ -35,6 +35,9 @@ CONFIGS = {
     "prod-hsw-clang": ("clang++", PROD + HSW),
     "prod-wsm-clang": ("clang++", PROD + WSM),
     "prod-wsm": ("g++", PROD + WSM),
+    # the library is header-only: a user who compiles with -ffast-math compiles the library with it (finite-math-only lets
+    # the compiler fold isinf / isnan; the start-up code of such a program also sets the FTZ / DAZ bits)
+    "prod-hsw-fastmath": ("g++", PROD + HSW + ["-ffast-math"]),
     # the adaptive chunk policy clamps its growth at SONIC_ALLOCATOR_MAX_CHUNK_CAPACITY (64 KiB by default, far above the
     # explorer's 200-byte requests); the macro is user-overridable, so a build with a cap of 128 brings the clamp into range
     "asan-hsw-cap128": ("g++", ASAN + HSW + ["-DSONIC_ALLOCATOR_MAX_CHUNK_CAPACITY=128"]),
@@ -76,6 +79,7 @@ FILLS_T = [0xbe, 0x06, 0x07, 0x0c]
 CHECKS = {
     "C01": dict(level="exploration", engine="jsonenum",
                 jobs=lambda t: J("jsonenum", "prod-hsw", ["--prop", "C01"]) + J("jsonenum", "asan-hsw", ["--prop", "C01"]) +
+                J("jsonenum", "prod-hsw-fastmath", ["--prop", "C01", "--skip", "L0_,LA_,LA2_,LB2_"], label="prod-hsw-fastmath/structured-families") +
                 (J("jsonenum", "prod-wsm", ["--prop", "C01"]) if t == "thorough" else []),
                 rule="Document::Parse(data,len) from an exact-size buffer vs the reference RFC 8259 recogniser: accept <=> reference accepts; success => code 0, offset==len; failure => null document, parse code, offset<=len, fault class where unambiguous. Non-trivial: the reference consumed >= 2 tokens or accepted."),
     "C02": dict(level="exploration", engine="jsonenum",
